@@ -36,8 +36,10 @@ SITES = {
     # II: ONE instance whose two output ports are both connected to the object (two drivers)
     "II": (None, "inst3.y1+inst3.y2"),
 }
-KINDS = ["w", "w0", "w1", "wdyn", "push", "r"]  # whole / bit 0 / bit 1 / run-time index / push / read
-PARTS = {"w": {0, 1}, "w0": {0}, "w1": {1}, "wdyn": {0, 1}, "push": {0, 1}}
+# whole / bit 0 / bit 1 / run-time index / push / read / inline VHDL write (target first) / inline VHDL write guarded by a
+# condition whose (read) placeholder precedes the written object
+KINDS = ["w", "w0", "w1", "wdyn", "push", "r", "iw", "iwg"]
+PARTS = {"w": {0, 1}, "w0": {0}, "w1": {1}, "wdyn": {0, 1}, "push": {0, 1}, "iw": {0, 1}, "iwg": {0, 1}}
 
 
 def accesses_for(obj):
@@ -47,7 +49,11 @@ def accesses_for(obj):
                 continue
             if site == "CE" and kind != "r":
                 continue
-            if obj in ("var",) and kind == "push":
+            if obj in ("var",) and kind in ("push", "iw", "iwg"):
+                continue
+            if kind == "iwg" and site in ("A", "B", "CA"):
+                continue  # the guarded form is a sequential statement
+            if kind in ("iw", "iwg") and site in ("CA",):
                 continue
             if obj == "tmp" and kind != "r":
                 continue  # a temporary is produced once (in ctx A or C, see render) and only read elsewhere
@@ -100,6 +106,10 @@ def stmt(obj_expr, kind, n, obj):
         return f"{obj_expr}[self.k] {op} self.i[0]"
     if kind == "push":
         return f"{obj_expr} ^= self.i"
+    if kind == "iw":
+        return 'f"{cohdl.vhdl:{' + obj_expr + '} <= {self.i!r};}"'
+    if kind == "iwg":
+        return 'f"{cohdl.vhdl:if {self.k[0]!r} = \'1\' then {' + obj_expr + '} <= {self.i!r}; end if;}"'
     return f"self.o{n} <<= {obj_expr}"
 
 
